@@ -381,7 +381,7 @@ Proof.
   destruct ev as [|c a]; [apply mono_refl|].
   destruct (c =? 1).
   { destruct a as [|nts [|ncli flags]]; try apply mono_refl.
-    destruct (negb (s_nts s =? 0)); cbn [fst]; [apply mono_refl|apply mono_p3; reflexivity]. }
+    destruct (negb (s_nts s =? 0) || _); cbn [fst]; [apply mono_refl|apply mono_p3; reflexivity]. }
   destruct (c =? 2).
   { destruct a as [|blob [|nt [|tgt [|]]]]; try apply mono_refl.
     destruct (Cluster.Model.zget _ _); cbn [fst]; [apply mono_refl|apply mono_p3; reflexivity]. }
